@@ -18,7 +18,7 @@ from .. import types as T
 from ._h_A import (FactReach, Facts, branch_succ, loop_breaks, nodes_of_stmts, nodes_for, kwarg,
                    is_const, stmts_in, never_returns, inliner, expander, bind_call, call_arg,
                    real_loops, Owners, followed, returns_of, value_at, strip_wrappers, atom_of,
-                   reaching_defs, built_list)
+                   reaching_defs, built_list, values_at)
 
 EXPLANATION = (
   "Decides the structural legs of the out-of-order protocol that keeps a formula from ever being "
@@ -434,11 +434,12 @@ def r1_scan(run, w, sc):
   seen_c = fc.run([(s, {}) for s in starts], stop={head})
   for n in raises:
     exc = cfg.nodes[n].stmt.exc
-    val = value_at(fn, cfg, du, n, exc) if exc is not None else None
+    vals = values_at(fn, cfg, du, n, exc) if exc is not None else []
     run.ob(R1, fn.qualname, "raise OrderError(<msg>, node, row)",
            "the OrderError names this node and this row as the dependency",
-           val is not None and is_order_error_ctor(val, sc), fi=fn.fi, node=cfg.nodes[n].stmt,
-           witness=None if val is None else "raises `%s`" % short(val))
+           bool(vals) and all(is_order_error_ctor(v, sc) for v in vals), fi=fn.fi,
+           node=cfg.nodes[n].stmt,
+           witness=None if not vals else "raises `%s`" % short(vals[0]))
     ok = n in seen_c and all(f.get(CRE) is True for f in seen_c[n])
     run.ob(R1, fn.qualname, "if not self._cell_required_error: self._cell_required_error = "
            "OrderError(...) before the raise",
@@ -773,8 +774,11 @@ def _key_function(fn, ex, key):
           len(s.args.args) == 1:
         body = [b for b in s.body if not (isinstance(b, ast.Expr) and
                                          isinstance(b.value, ast.Constant))]
-        if len(body) == 1 and isinstance(body[0], ast.Return) and body[0].value is not None:
-          return s.args.args[0].arg, body[0].value
+        # straight-line: plain assignments of locals, then one return
+        if body and isinstance(body[-1], ast.Return) and body[-1].value is not None and \
+            all(isinstance(b, ast.Assign) for b in body[:-1]):
+          from ._h_A import Expander
+          return s.args.args[0].arg, Expander(s).expand(body[-1].value)
   return None
 
 
@@ -888,8 +892,9 @@ def r4_lookups_first(run, w):
     for (n, c, nm) in f2.calls():
       if nm == "self._update_loop":
         a = call_arg(c, ulf, ulf.params()[1])
-        v = value_at(f2, cfg2, du2, n.id, a) if a is not None else None
-        ok = isinstance(v, ast.Call) and endswith(dotted(v.func), "self._make_sorted_work_items")
+        vs = values_at(f2, cfg2, du2, n.id, a) if a is not None else []
+        ok = bool(vs) and all(isinstance(v, ast.Call) and
+                              endswith(dotted(v.func), "self._make_sorted_work_items") for v in vs)
         run.ob(R4, q, "self._update_loop(self._make_sorted_work_items(...))", "the "
                "full-recalculation loop starts from the lookups-first order",
                ok, fi=f2.fi, node=c)
